@@ -58,6 +58,21 @@ def gen(rng, tier):
                                      allow_retry=True, allow_rates=(not stock) and rng.random() < 0.15)
             lines += rc.amount_one(body) if stock else body
         yield lines
+    # first contact of a source made by many callers at once (and again after its entry has expired): the callers
+    # rendezvous inside the rate extractor, which the limiter calls under its mutex
+    for k in range({"quick": 6, "thorough": 40, "search": 10}.get(tier, 6)):
+        rates = rc.pick_rates(rng, "hyp", nmax=2)
+        b = min(r[2] for r in rates)
+        lines = ["cfg rate %s cap=%s" % (rc.fmt_rates(rates), rng.choice(["default", "4"]))]
+        t = rng.choice([0, 5, S - 1])
+        for j, src in enumerate(rng.sample(["a", "b", "c", "d"], rng.randint(1, 3))):
+            g = rng.choice([4, 8, 16])
+            lines.append("at %d preq %s 1 %d %d barrier=1" % (t, src, g * rng.randint(1, 3) + b, g))
+            lines.append("at %d req %s 1" % (t, src))
+            t += rng.choice([0, 1, S])
+        t += 100 * max(r[0] for r in rates) + 2 * S          # every entry has expired
+        lines.append("at %d preq a 1 %d 8 barrier=1" % (t, 8 + b))
+        yield lines
     if tier == "thorough":
         # sustained traffic for many entry lifetimes
         for k in range(40):
